@@ -792,6 +792,10 @@ func (ex *Exec) valOfPkgObject(st *State, obj types.Object) (Val, bool) {
 		return ex.globalVar(st, o), true
 	case *types.Nil:
 		return Val{T: "0", S: SRef}, true
+	case *types.Func:
+		// a named function used as a value (function references of distinct functions are made
+		// distinct where a `dispatch` clause lists them)
+		return ex.funcRef(o), true
 	}
 	return Val{}, false
 }
@@ -915,10 +919,11 @@ func (ex *Exec) importedPkg(pkg *types.Package, name string) *types.Package {
 	if p, ok := ex.ld.byPath[name]; ok {
 		return p
 	}
-	if p, ok := ex.ld.byName[name]; ok {
-		return p
+	from := ""
+	if pkg != nil {
+		from = pkg.Path()
 	}
-	return nil
+	return ex.ld.resolveShort(name, from)
 }
 
 func (ex *Exec) typesPkgFor(path string, dflt *types.Package) *types.Package {
